@@ -212,21 +212,27 @@ static void * u_consumer(void * a) {
   }
   return 0;
 }
+static void * u_bystander(void * a) { for (int i = 0; i < (int)(intptr_t)a; i++) { myth_yield(); mv_progress(); } return 0; }
 void scen_c08(mt_case * c) {
   mt_engine_cfg e; rd_t * r = &c->prog;
   mt_decode_engine(c, &e, 8);
   U.items = rd_range(r, 1, c->tier ? 60 : 30); U.yp = (int)rd_below(r, 3); U.yc = (int)rd_below(r, 3);
   int consumer_first = (int)rd_below(r, 2), main_role = (int)rd_below(r, 3);
-  mt_desc("C08 uncond mailbox items=%d producer yields %d consumer yields %d consumer_first=%d main_role=%d\n", U.items, U.yp, U.yc, consumer_first, main_role);
+  /* how long an early signal keeps polling before anybody else runs: mostly not at all, sometimes very long */
+  { unsigned k = rd_below(r, 64); e.burst_id = MVS_UNCOND_SIGNAL; e.burst_len = k < 40 ? 0 : k < 52 ? 100 : k < 59 ? 5000 : k < 62 ? 70000 : 1100000; }
+  int nby = (int)rd_below(r, 4), byy = rd_range(r, 1, 24);   /* bystander threads that only yield: other work in the run queues */
+  mt_desc("C08 uncond mailbox items=%d producer yields %d consumer yields %d consumer_first=%d main_role=%d bystanders=%d(x%d yields)\n", U.items, U.yp, U.yc, consumer_first, main_role, nby, byy);
   mt_hash(c->prog.p, c->prog.pos);
   mt_lib_start(c, &e, 0);
   myth_uncond_init(&U.u);
-  myth_thread_t tp = 0, tc = 0;
+  myth_thread_t tp = 0, tc = 0, tb[4];
+  for (int k = 0; k < nby; k++) myth_create_ex(&tb[k], 0, u_bystander, (void *)(intptr_t)byy);
   if (consumer_first) { if (main_role != 2) myth_create_ex(&tc, 0, u_consumer, 0); if (main_role != 1) myth_create_ex(&tp, 0, u_producer, 0); }
   else { if (main_role != 1) myth_create_ex(&tp, 0, u_producer, 0); if (main_role != 2) myth_create_ex(&tc, 0, u_consumer, 0); }
   if (main_role == 1) u_producer(0); else if (main_role == 2) u_consumer(0);
   if (tp) { myth_join(tp, 0); mv_progress(); }
   if (tc) { myth_join(tc, 0); mv_progress(); }
+  for (int k = 0; k < nby; k++) { myth_join(tb[k], 0); mv_progress(); }
   mt_lib_finish();
   if (U.ngot != U.items) mt_fail("consumed %d of %d items", U.ngot, U.items);
   for (int i = 0; i < U.ngot && i < 64; i++) if (U.got[i] != i + 1) mt_fail("item %d: got %ld", i, U.got[i]);
@@ -235,6 +241,7 @@ void scen_c08(mt_case * c) {
   long early = (long)HIT(MVS_UNCOND_SIGNAL);
   mt_stat("waits", U.waits); mt_stat("signal_before_suspend", early); mt_stat("migrated", U.migrated);
   if (U.waits) mt_label("waited"); if (early) mt_label("signal_before_waiter_suspended"); if (U.migrated) mt_label("resumed_on_other_worker"); if (e.W == 1) mt_label("W1");
+  if (e.burst_len && early) mt_label(e.burst_len >= 70000 ? "long_early_signal_window" : "medium_early_signal_window");
   mt_nontrivial(U.waits > 0 && (early > 0 || U.migrated > 0));
 }
 
